@@ -112,6 +112,20 @@ def extract(src):
     consts = {}
     for cm in re.finditer(r"let\s+(\w+)\s*=\s*" + STR_LIT + r"\s*;", body, re.S):
         consts[cm.group(1)] = unescape_rust(cm.group(2))
+    # `let x = if <cond> { A } else { B };` with A, B string constants: the condition is
+    # abstracted by a free boolean, x becomes a two-way choice
+    choices = {}
+    atom = r"(?:" + STR_LIT + r"|(\w+))"
+    for cm in re.finditer(r"let\s+(\w+)\s*=\s*if\s+([^{}]+?)\s*\{\s*" + atom + r"\s*\}\s*else\s*\{\s*" + atom + r"\s*\}\s*;", body, re.S):
+        alts = []
+        for lit, ident in ((cm.group(3), cm.group(4)), (cm.group(5), cm.group(6))):
+            if lit is not None:
+                alts.append(unescape_rust(lit))
+            elif ident in consts:
+                alts.append(consts[ident])
+            else:
+                raise Unsupported("branch %r of the conditional constant %s is not a string constant" % (ident, cm.group(1)))
+        choices[cm.group(1)] = (alts, re.sub(r"\s+", " ", cm.group(2)))
     fm = re.search(r"let\s+(\w+)\s*=\s*format!\s*\(", body)
     if not fm:
         raise Unsupported("no `let x = format!(..)` in proto::http::repl")
@@ -179,13 +193,20 @@ def extract(src):
             args.append(("date",))
             continue
         lm = re.fullmatch(r"(\w+)\.len\(\)(?:([+-])(\d+))?", e1)
-        if lm and lm.group(1) in consts:
-            n = len(consts[lm.group(1)])
+        if lm and (lm.group(1) in consts or lm.group(1) in choices):
+            delta = 0
             if lm.group(2):
-                n = n + int(lm.group(3)) if lm.group(2) == "+" else n - int(lm.group(3))
-            if n < 0:
-                raise Unsupported("length expression underflows (would panic: C01)")
-            args.append(("int", n, e1))
+                delta = int(lm.group(3)) if lm.group(2) == "+" else -int(lm.group(3))
+            if lm.group(1) in consts:
+                n = len(consts[lm.group(1)].encode("utf-8")) + delta
+                if n < 0:
+                    raise Unsupported("length expression underflows (would panic: C01)")
+                args.append(("int", n, e1))
+            else:
+                args.append(("choice_len", lm.group(1), delta, e1))
+            continue
+        if e1 in choices:
+            args.append(("choice", e1, e1))
             continue
         if re.fullmatch(r"\d+(usize|u32|u64|i32)?", e1):
             args.append(("int", int(re.match(r"\d+", e1).group(0)), e1))
@@ -198,7 +219,36 @@ def extract(src):
             args.append(("str", unescape_rust(sm.group(1)), "literal"))
             continue
         raise Unsupported("format! argument %r is not a supported form" % e)
-    return pieces, args
+    return pieces, args, choices
+
+
+def variants(args, choices):
+    """every assignment of the conditional constants -> (label, concrete argument list)"""
+    used = sorted(set(a[1] for a in args if a[0] in ("choice", "choice_len")))
+    out = []
+
+    def rec(k, env):
+        if k == len(used):
+            conc = []
+            for a in args:
+                if a[0] == "choice":
+                    conc.append(("str", choices[a[1]][0][env[a[1]]], a[2]))
+                elif a[0] == "choice_len":
+                    n = len(choices[a[1]][0][env[a[1]]].encode("utf-8")) + a[2]
+                    if n < 0:
+                        raise Unsupported("length expression underflows (would panic: C01)")
+                    conc.append(("int", n, a[3]))
+                else:
+                    conc.append(a)
+            label = ", ".join("%s = %s branch of `if %s`" % (u, "then" if env[u] == 0 else "else", choices[u][1]) for u in used) or "only"
+            out.append((label, conc))
+            return
+        for b in (0, 1):
+            e2 = dict(env)
+            e2[used[k]] = b
+            rec(k + 1, e2)
+    rec(0, {})
+    return out
 
 
 # ---------------------------------------------------------------------------------------------
@@ -385,90 +435,107 @@ def crosscheck(smt2, timeout=60):
     return out
 
 
+def validate(pieces, args, real):
+    """can the encoding (some date) produce exactly these bytes? -> 'sat' / 'unsat' / ..."""
+    ndate = len([a for a in args if a[0] == "date"])
+    fixed = len(response_bytes(pieces, args, []))
+    L = (len(real) - fixed) // ndate if ndate else 0
+    if L < 0 or L > DATE_MAX or fixed + ndate * L != len(real):
+        return "unsat", L, 0.0
+    date = [z3.BitVec("d%d" % k, 8) for k in range(L)]
+    r = response_bytes(pieces, args, date)
+    s = z3.Solver()
+    s.set("timeout", 60000)
+    for d in date:
+        s.add(d != 10, d != 13)
+    s.add(tobool(s_and(*[b_eq(r[k], real[k]) for k in range(len(real))])))
+    t0 = time.time()
+    ok = str(s.check())
+    return ok, L, time.time() - t0
+
+
 def main():
     path, real_hex = sys.argv[1], sys.argv[2]
     cross = "crosscheck" in sys.argv[3:]
-    validate_only = "validate-only" in sys.argv[3:]
     out = {"solver": "z3 " + z3.get_version_string(), "queries": [], "inconclusive": [], "violations": [], "encoded": None,
-           "date_max": DATE_MAX, "crosscheck": []}
+           "date_max": DATE_MAX, "crosscheck": [], "variants": []}
     t_all = time.time()
     try:
-        pieces, args = extract(open(path).read())
+        pieces, args, choices = extract(open(path).read())
+        vs = variants(args, choices)
     except Unsupported as e:
         out["inconclusive"].append("translator refuses this source: %s" % e)
         print(json.dumps(out))
         return
-    out["encoded"] = {"pieces": pieces, "args": [list(a) if a[0] != "str" else ["str", "<%d bytes>" % len(a[1]), a[2]] for a in args]}
-    ndate = len([a for a in args if a[0] == "date"])
+    out["encoded"] = {"pieces": pieces, "args": [[a[0], a[-1]] if a[0] != "date" else ["date"] for a in args]}
+    out["variants"] = [v[0] for v in vs]
     solver_s = 0.0
     encode_s = 0.0
-    # ---- translator validation: can the encoding produce the bytes the real function returned?
+    # ---- translator validation: every real response must be producible by SOME variant
     if real_hex != "-":
-        real = bytes.fromhex(real_hex)
-        fixed = len(response_bytes(pieces, args, []))
-        L = (len(real) - fixed) // ndate if ndate else 0
-        ok = None
-        if L < 0 or L > DATE_MAX or (ndate and fixed + ndate * L != len(real)) or (not ndate and fixed != len(real)):
-            ok = "unsat"
-        else:
+        for k, rh in enumerate(real_hex.split(",")):
+            if rh == "none":
+                out["queries"].append({"name": "validate", "request": k, "result": "none"})
+                out["inconclusive"].append("the real function did not answer request #%d of the validation set" % k)
+                continue
+            real = bytes.fromhex(rh)
+            ok, L, which = "unsat", None, None
+            for label, conc in vs:
+                r1, L1, dt = validate(pieces, conc, real)
+                solver_s += dt
+                if r1 == "sat":
+                    ok, L, which = "sat", L1, label
+                    break
+                if r1 not in ("sat", "unsat"):
+                    ok = r1
+            out["queries"].append({"name": "validate", "request": k, "length": L, "result": ok, "variant": which})
+            if ok != "sat":
+                out["inconclusive"].append("validation query answered %s: no variant of the encoding can produce the %d bytes the real function returned for request #%d" % (ok, len(real), k))
+    # ---- the property, one group of queries per variant and date length
+    for label, conc in vs:
+        for L in range(0, DATE_MAX + 1):
+            t0 = time.time()
             date = [z3.BitVec("d%d" % k, 8) for k in range(L)]
-            r = response_bytes(pieces, args, date)
+            r = response_bytes(pieces, conc, date)
+            terms = analyse(r)
+            encode_s += time.time() - t0
             s = z3.Solver()
             s.set("timeout", 60000)
             for d in date:
                 s.add(d != 10, d != 13)
-            conj = s_and(*[b_eq(r[k], real[k]) for k in range(len(real))])
-            s.add(tobool(conj))
-            t0 = time.time()
-            ok = str(s.check())
-            solver_s += time.time() - t0
-        out["queries"].append({"name": "validate", "length": L, "result": ok})
-        if ok != "sat":
-            out["inconclusive"].append("validation query answered %s: the encoding cannot produce the %d bytes the real function returned natively" % (ok, len(real)))
-    # ---- the property, one group of queries per date length
-    for L in ([] if validate_only else range(0, DATE_MAX + 1)):
-        t0 = time.time()
-        date = [z3.BitVec("d%d" % k, 8) for k in range(L)]
-        r = response_bytes(pieces, args, date)
-        terms = analyse(r)
-        encode_s += time.time() - t0
-        s = z3.Solver()
-        s.set("timeout", 60000)
-        for d in date:
-            s.add(d != 10, d != 13)
-        for name in ("status_line", "blank_line", "www_authenticate", "content_length_present", "content_length_equals_body"):
-            t = terms[name]
-            s.push()
-            s.add(z3.Not(tobool(t)))
-            t0 = time.time()
-            res = str(s.check())
-            dt = time.time() - t0
-            solver_s += dt
-            q = {"name": name, "length": L, "result": res, "solver_s": round(dt, 3)}
-            if res == "sat":
-                m = s.model()
-                dbytes = bytes([m.eval(d, model_completion=True).as_long() for d in date])
-                q["date_hex"] = dbytes.hex()
-                if not [v for v in out["violations"] if v["name"] == name]:
-                    out["violations"].append({"name": name, "what": WHAT[name], "date_hex": dbytes.hex(), "length": L})
-            elif res != "unsat":
-                out["inconclusive"].append("query %s at date length %d answered %s" % (name, L, res))
-            if cross and L in (0, 31, DATE_MAX) and name == "content_length_equals_body":
-                cc = crosscheck("(set-logic QF_BV)\n" + s.to_smt2())
-                out["crosscheck"].append({"name": name, "length": L, "z3": res, **cc})
-                for k, v in cc.items():
-                    if v != res:
-                        out["inconclusive"].append("solvers disagree on %s at date length %d: z3 %s, %s %s" % (name, L, res, k, v))
-            s.pop()
-            out["queries"].append(q)
-        if L == 31:
-            # vacuity: the assumptions on the date are satisfiable
-            t0 = time.time()
-            res = str(s.check())
-            solver_s += time.time() - t0
-            out["queries"].append({"name": "witness", "length": L, "result": res})
-            if res != "sat":
-                out["inconclusive"].append("assumptions on the date unsatisfiable")
+            for name in ("status_line", "blank_line", "www_authenticate", "content_length_present", "content_length_equals_body"):
+                t = terms[name]
+                s.push()
+                s.add(z3.Not(tobool(t)))
+                t0 = time.time()
+                res = str(s.check())
+                dt = time.time() - t0
+                solver_s += dt
+                q = {"name": name, "length": L, "result": res, "solver_s": round(dt, 3), "variant": label}
+                if res == "sat":
+                    m = s.model()
+                    dbytes = bytes([m.eval(d, model_completion=True).as_long() for d in date])
+                    q["date_hex"] = dbytes.hex()
+                    if not [v for v in out["violations"] if v["name"] == name and v["variant"] == label]:
+                        out["violations"].append({"name": name, "what": WHAT[name], "date_hex": dbytes.hex(), "length": L, "variant": label})
+                elif res != "unsat":
+                    out["inconclusive"].append("query %s at date length %d answered %s" % (name, L, res))
+                if cross and L in (0, 31, DATE_MAX) and name == "content_length_equals_body":
+                    cc = crosscheck("(set-logic QF_BV)\n" + s.to_smt2())
+                    out["crosscheck"].append({"name": name, "length": L, "z3": res, **cc})
+                    for k, v in cc.items():
+                        if v != res:
+                            out["inconclusive"].append("solvers disagree on %s at date length %d: z3 %s, %s %s" % (name, L, res, k, v))
+                s.pop()
+                out["queries"].append(q)
+            if L == 31:
+                # vacuity: the assumptions on the date are satisfiable
+                t0 = time.time()
+                res = str(s.check())
+                solver_s += time.time() - t0
+                out["queries"].append({"name": "witness", "length": L, "result": res, "variant": label})
+                if res != "sat":
+                    out["inconclusive"].append("assumptions on the date unsatisfiable")
     out["solver_s"] = round(solver_s, 2)
     out["encode_s"] = round(encode_s, 2)
     out["total_s"] = round(time.time() - t_all, 2)
